@@ -2593,6 +2593,14 @@ func errorsReturnedRule(r *Report, f *ssa.Function, exact bool) {
 			continue
 		}
 		nm := norm(nameOrDyn(c))
+		if nm == "dynamic call" {
+			// a function kept in a struct field (p.dial, a callback) is named by the field
+			if ld, isLd := c.Call.Value.(*ssa.UnOp); isLd && ld.Op == token.MUL {
+				if fa, isFa := ld.X.(*ssa.FieldAddr); isFa {
+					nm = "field " + namedOf(fa.X.Type()) + "." + fieldObj(fa).Name()
+				}
+			}
+		}
 		if nm == "fmt.Errorf" || nm == "errors.New" {
 			continue
 		}
@@ -2952,4 +2960,60 @@ func (w *World) neverAssigned(g *ssa.Global) bool {
 		}
 	}
 	return true
+}
+
+// setterStoresRule: the public setter `method` of the module type stores its
+// (first) argument in `field` of its receiver: directly, after defaulting
+// (a phi with the parameter as one input), or wrapped in a closure that
+// captures it. A setter that drops its argument leaves the default in force
+// whatever the user configures.
+func setterStoresRule(r *Report, rel, typ, method, field, consequence string) {
+	w := r.W
+	T := w.Named(rel, typ)
+	key := "(*M" + map[bool]string{true: "", false: "/" + rel}[rel == ""] + "." + typ + ")." + method
+	if T == nil {
+		r.Undecided(key, "UNRESOLVED")
+		return
+	}
+	fn := w.method(T, method)
+	if fn == nil || fn.Blocks == nil || len(fn.Params) < 2 {
+		r.Undecided(key, "UNRESOLVED")
+		return
+	}
+	r.Touch(fn)
+	isArg := func(v ssa.Value) bool {
+		if isParamVal(v, fn.Params[1]) {
+			return true
+		}
+		if a, ok := v.(*ssa.Alloc); ok {
+			for _, st := range storesTo(a) {
+				if st.Val == ssa.Value(fn.Params[1]) {
+					return true
+				}
+			}
+		}
+		return false
+	}
+	ok := false
+	for fo, sts := range fieldsWritten(fn) {
+		if fo.Name() != field {
+			continue
+		}
+		for _, st := range sts {
+			sl := w.backSlice(st.Val, flowOpt{})
+			if anyIn(sl, isArg) {
+				ok = true
+			}
+			for v := range sl {
+				if mc, isMC := v.(*ssa.MakeClosure); isMC {
+					for _, b := range mc.Bindings {
+						if isArg(b) {
+							ok = true
+						}
+					}
+				}
+			}
+		}
+	}
+	r.Decide("flow", key+" stores its argument in "+field, ok, "the parameter reaches the field", "the setter does not store its argument in "+field+": "+consequence, fn.Pos())
 }
